@@ -10,6 +10,11 @@
     write request
     select { <-chan | <-time.After(timeout) }
     return                         — `defer conn.Close()` if present
+  The dial is a phase of its own (`startSlow … dialDone`): a peer may accept the TCP connection and take seconds over
+  the TLS handshake or the capabilities exchange.  The code dials synchronously - the request waits for the
+  connection, however long that takes, and only then writes its request and starts its answer timer.  A dial made in
+  a task of its own with a deadline (`syncDial = false`) lets the request return while the set-up is still running:
+  the connection that set-up produces later belongs to nobody.
   and per answer read from a connection that is still open: the mux takes its *read* lock, calls the registered
   handler, which sends the message to its channel (blocking, or `select … default`).
 
@@ -25,13 +30,16 @@ structure Cfg where
   nonBlocking : Bool    -- the handler's send is a `select` case with a `default`
   timeoutMs : Nat
   watchdog : Bool := false  -- the sm.Client is built with `EnableWatchdog: true` (one watchdog task per connection)
+  syncDial : Bool := true   -- the dial is a plain call of the request's own task: no `go` statement in the function,
+                            -- the DialNetworkTLS call not inside a function literal
+  dialDeadlineMs : Nat := 0 -- with an asynchronous dial: after how long the request stops waiting for it (0: never)
   serial : Bool := true     -- every call of the client function is an ordinary call made by the charging operation
                             -- itself (which holds the subscriber lock): no call site sits in a `go` statement, a deferred
                             -- call or a function literal, directly or through a helper function
 deriving DecidableEq, Repr
 
 def Cfg.good (c : Cfg) : Bool :=
-  c.closesConn && c.ownChan && c.buffered && c.nonBlocking && decide (0 < c.timeoutMs) && c.serial
+  c.closesConn && c.ownChan && c.buffered && c.nonBlocking && decide (0 < c.timeoutMs) && c.syncDial && c.serial
 
 inductive Outcome where
   | own (k : Nat)               -- request k acted upon the answer to request k
@@ -45,6 +53,9 @@ inductive Ev where
   | answer (j : Nat)    -- the peer's answer to request j reaches the CHF
   | timeout             -- the timer of the waiting request fires
   | ret                 -- the request's function returns (deferred calls run)
+  | startSlow           -- the subscriber's next request begins; its connection set-up is in progress
+  | dialDone (k : Nat)  -- the connection set-up of request k completes (TLS handshake and capabilities exchange done)
+  | dialGiveUp          -- the request stops waiting for its dial (possible only when the dial runs in a task of its own)
 deriving DecidableEq, Repr
 
 structure St where
@@ -57,6 +68,8 @@ structure St where
   blocked : Nat := 0               -- handler goroutines blocked on a send, each holding the mux read lock
   wedged : Bool := false           -- a request is stuck in Handle() behind a read-locked mux, for ever
   log : List Outcome := []         -- most recent first
+  dialing : Option Nat := none     -- request whose connection is being set up and which waits for it
+  lateDials : List Nat := []       -- connection set-ups still running although their request has given up on them
 deriving Repr
 
 /-- the channel request `k` waits on -/
@@ -83,12 +96,30 @@ def drain (cfg : Cfg) (s : St) : St :=
 def step (cfg : Cfg) (s : St) : Ev → St
   | .start =>
     if s.wedged then s
-    else if cfg.serial && (s.cur.isSome || s.returning.isSome) then s   -- subscriber lock: one request at a time
+    else if cfg.serial && (s.cur.isSome || s.returning.isSome || s.dialing.isSome) then s   -- subscriber lock: one request at a time
     -- (a request made in the background - `serial = false` - starts while another one waits: that one keeps its
     --  connection, is no longer the registered receiver and will not be heard of again)
     else if s.blocked > 0 then { s with wedged := true }     -- Handle() waits for the write lock for ever
     else
       drain cfg { s with next := s.next + 1, cur := some s.next, conns := s.next :: s.conns, reg := chanOf cfg s.next }
+  | .startSlow =>
+    if s.wedged then s
+    else if cfg.serial && (s.cur.isSome || s.returning.isSome || s.dialing.isSome) then s
+    else if s.blocked > 0 then { s with wedged := true }
+    else { s with next := s.next + 1, dialing := some s.next, reg := chanOf cfg s.next }   -- Handle() precedes the dial
+  | .dialDone k =>
+    if s.dialing = some k then
+      -- the request writes its message and starts waiting (a message already in its channel is taken at once)
+      drain cfg { s with dialing := none, cur := some k, conns := k :: s.conns }
+    else if s.lateDials.contains k then
+      { s with lateDials := s.lateDials.erase k, conns := k :: s.conns }    -- established, and nobody will close it
+    else s
+  | .dialGiveUp =>
+    match s.dialing with
+    | some k =>
+      if cfg.syncDial then s                                 -- a synchronous dial has no deadline
+      else { s with dialing := none, returning := some k, lateDials := k :: s.lateDials, log := .timeout k :: s.log }
+    | none => s
   | .answer j =>
     if !s.conns.contains j then s                            -- the connection is closed: nothing is read
     else
@@ -195,20 +226,32 @@ def repeatAnswer (cfg : Cfg) (w : WSt) (k : Nat) : Nat → WSt
   | 0 => w
   | n + 1 => repeatAnswer cfg (stepW cfg w (.answer k)) k n
 
-/-- one request whose answer (if any) reaches the CHF `copies` times: returns the machine afterwards and what
-    the caller saw -/
-def call (cfg : Cfg) (sim : Sim) (gap delay : Nat) (copies : Nat := 1) : Sim × CallResult :=
+/-- one request whose connection set-up takes `setup` ms and whose answer (if any) reaches the CHF `copies` times,
+    `delay` ms after the request was written: returns the machine afterwards and what the caller saw -/
+def call (cfg : Cfg) (sim : Sim) (gap delay : Nat) (copies : Nat := 1) (setup : Nat := 0) : Sim × CallResult :=
   let sim := { sim with now := sim.now + gap }
   let sim := deliverUntil cfg sim (sim.now + 1) false (sim.pending.length + 1)
   let t0 := sim.now
   let logLen := sim.w.st.log.length
-  let w1 := stepW cfg sim.w .start
+  let k := sim.w.st.next
+  let w1 := stepW cfg sim.w (if setup = 0 then .start else .startSlow)
   if w1.st.wedged then ({ sim with w := w1 }, .hung)
-  else
-    let k := sim.w.st.next
+  else if setup ≠ 0 ∧ !cfg.syncDial ∧ 0 < cfg.dialDeadlineMs ∧ cfg.dialDeadlineMs ≤ setup then
+    -- the request gives up on its dial and returns; the set-up goes on and completes with nobody to own the connection
     let sim := { sim with w := w1 }
-    let tEnd := t0 + min delay cfg.timeoutMs
-    let late := List.replicate copies (t0 + delay, k)
+    let sim := deliverUntil cfg sim (t0 + cfg.dialDeadlineMs) false (sim.pending.length + 1)
+    let w := stepW cfg (stepW cfg (stepW cfg sim.w .dialGiveUp) .ret) (.dialDone k)
+    ({ sim with w := w, now := t0 + cfg.dialDeadlineMs }, .done (.timeout k) cfg.dialDeadlineMs)
+  else
+    let sim := { sim with w := w1 }
+    -- answers to earlier requests that arrive while the connection is being set up go to the handler registered last
+    let sim := if setup = 0 then sim
+               else
+                 let sim := deliverUntil cfg sim (t0 + setup) false (sim.pending.length + 1)
+                 { sim with w := stepW cfg sim.w (.dialDone k), now := t0 + setup }
+    let tw := t0 + setup
+    let tEnd := tw + min delay cfg.timeoutMs
+    let late := List.replicate copies (tw + delay, k)
     -- earlier answers that arrive while this request waits
     let sim := deliverUntil cfg sim tEnd true (sim.pending.length + 1)
     let sim :=
